@@ -141,13 +141,14 @@ structure LInv (D : List SDecl) (b : Builder) : Prop where
   idnd : (b.mods.map (·.id)).Nodup
   parent : ∀ m ∈ b.mods, ∀ d ∈ D, m.path = reprOf d.segs → ParOk b.mods m d
   kids : ∀ t, t ∈ b.kids ↔ KidRel D b.mods t
+  kidsnd : b.kids.Nodup
 
 theorem linv_init : LInv [] {} :=
   ⟨by simp [BInv, preorder_nil], by simp, by simp, by simp, by
     intro t
     constructor
     · intro h; simp at h
-    · rintro ⟨pm, hpm, _⟩; simp at hpm⟩
+    · rintro ⟨pm, hpm, _⟩; simp at hpm, by simp⟩
 
 theorem linv_step (D : List SDecl) (p : SDecl) (b : Builder)
     (hnames : NamesValid (D ++ [p])) (hv : Valid (D ++ [p])) (hL : LInv D b) :
@@ -323,6 +324,18 @@ theorem linv_step (D : List SDecl) (p : SDecl) (b : Builder)
           have : pm' = pm := binv_path_unique hvD hnD hb hpmm' hpmm (hpmp'.trans hpmp.symm)
           subst this
           rw [ht, hmid]
+  · simp only
+    rcases hcase with ⟨_, _, hk⟩ | ⟨q, n, pm, _, _, _, _, _, hk⟩
+    · rw [hk]; exact hL.kidsnd
+    · rw [hk]
+      simp only [kidsInsert, List.nodup_cons]
+      refine ⟨?_, List.Pairwise.filter _ hL.kidsnd⟩
+      intro hmem'
+      have hin : (pm.id, n, b.nextId) ∈ b.kids := (List.mem_filter.mp hmem').1
+      obtain ⟨_, _, cm, hcm, _, _, _, _, _, _, hcid, _, _⟩ := (hL.kids _).mp hin
+      have := hL.idlt cm hcm
+      simp only at hcid
+      omega
 
 /-- the lookup invariant holds for the simulation built from any valid declaration sequence -/
 theorem buildAll_linv : ∀ D : List SDecl, Valid D → NamesValid D → LInv D (buildAll D).1 := by
